@@ -367,3 +367,7 @@ mod tests {
         assert_eq!(deserialized, oti);
     }
 }
+
+#[cfg(cberner_raptorq_verif)]
+#[path = "/verif/hooks/base_hooks.rs"]
+pub(crate) mod verif_hooks;
